@@ -502,4 +502,263 @@ theorem chunks_flatten (b : Option Nat) (hb : b ≠ some 0) (xs : List α) : (ch
     simp only [chunks]
     exact chunksFuel_flatten n (by cases n with | zero => exact absurd rfl hb | succ k => omega) _ _ (Nat.le_refl _)
 
+/-! ## constructors on objects -/
+
+theorem dataSeq_of_all_data : ∀ (l : List Obj), (∀ o ∈ l, o.hasNoData = false) → dataSeq l = l
+  | [], _ => rfl
+  | o :: l, h => by
+    have ho := h o (List.mem_cons_self ..)
+    have hl := dataSeq_of_all_data l (fun o' ho' => h o' (List.mem_cons_of_mem _ ho'))
+    simp only [dataSeq] at hl ⊢
+    simp [List.filter, ho, hl]
+
+theorem toStages_append : ∀ (a b : List Obj) (sa sb : List (Stage Value)),
+    toStages a = .ok sa → toStages b = .ok sb → toStages (a ++ b) = .ok (sa ++ sb)
+  | [], b, sa, sb, ha, hb => by
+    simp only [toStages, Except.ok.injEq] at ha
+    subst ha
+    simpa using hb
+  | o :: a, b, sa, sb, ha, hb => by
+    simp only [toStages] at ha
+    cases ho : o.toStage with
+    | error e => simp [ho] at ha
+    | ok st =>
+      cases hr : toStages a with
+      | error e => simp [ho, hr] at ha
+      | ok sts =>
+        simp only [ho, hr, Except.ok.injEq] at ha
+        subst ha
+        simp only [List.cons_append, toStages, ho, toStages_append a b sts sb hr hb]
+
+theorem toStages_error : ∀ (l : List Obj) (e : Exc), toStages l = .error e → e = .lenaTypeError
+  | [], e, h => by simp [toStages] at h
+  | o :: l, e, h => by
+    simp only [toStages] at h
+    cases ho : o.toStage with
+    | error e' =>
+      simp only [ho, Except.error.injEq] at h
+      subst h
+      simp only [Obj.toStage] at ho
+      split at ho
+      · simp at ho
+      · split at ho <;> simp_all
+    | ok st =>
+      cases hr : toStages l with
+      | error e' =>
+        simp only [ho, hr, Except.error.injEq] at h
+        subst h
+        exact toStages_error l e' hr
+      | ok sts => simp [ho, hr] at h
+
+theorem toPres_error : ∀ (l : List Obj) (e : Exc), toPres l = .error e → e = .lenaTypeError
+  | [], e, h => by simp [toPres] at h
+  | o :: l, e, h => by
+    simp only [toPres] at h
+    cases ho : o.toPre with
+    | error e' =>
+      simp only [ho, Except.error.injEq] at h
+      subst h
+      simp only [Obj.toPre] at ho
+      split at ho
+      · simp at ho
+      · split at ho <;> simp_all
+    | ok st =>
+      cases hr : toPres l with
+      | error e' =>
+        simp only [ho, hr, Except.error.injEq] at h
+        subst h
+        exact toPres_error l e' hr
+      | ok sts => simp [ho, hr] at h
+
+theorem splitAtFc_append : ∀ (pre : List Obj) (acc : Obj) (post : List Obj),
+    (∀ o ∈ pre, o.caps.isFillComputeEl = false) → acc.caps.isFillComputeEl = true →
+    splitAtFc (pre ++ acc :: post) = some (pre, acc, post)
+  | [], acc, post, _, hacc => by simp [splitAtFc, hacc]
+  | o :: pre, acc, post, hpre, hacc => by
+    have ho := hpre o (List.mem_cons_self ..)
+    have ih := splitAtFc_append pre acc post (fun o' ho' => hpre o' (List.mem_cons_of_mem _ ho')) hacc
+    simp [splitAtFc, ho, ih]
+
+/-! ## `Split.run` with several branches: every branch yields what it yields alone -/
+
+theorem project_andThen (i : Nat) (a b : Strm (Nat × α)) (h : a.term = none) :
+    project i (a.andThen b) = project i a ++ project i b := by
+  obtain ⟨av, at_⟩ := a
+  simp only at h
+  subst h
+  simp [project, Strm.andThen]
+
+theorem andThen_term (a b : Strm α) (h : a.term = none) : (a.andThen b).term = b.term := by
+  obtain ⟨av, at_⟩ := a
+  simp only at h
+  subst h
+  rfl
+
+@[simp] theorem tag_term (j : Nat) (s : Strm α) : (tag j s).term = s.term := rfl
+
+theorem project_tag_same (i : Nat) (s : Strm α) : project i (tag i s) = s.vals := by
+  simp only [project, tag, Strm.map, List.filter_map, List.map_map]
+  have h1 : (fun (p : Nat × α) => p.1 == i) ∘ (fun v => (i, v)) = fun _ => true := by
+    funext v; simp
+  have h2 : (Prod.snd ∘ fun (v : α) => (i, v)) = id := rfl
+  rw [h1, h2]
+  simp
+
+theorem project_tag_ne (i j : Nat) (h : (j == i) = false) (s : Strm α) : project i (tag j s) = [] := by
+  simp only [project, tag, Strm.map, List.filter_map, List.map_map]
+  have h1 : (fun (p : Nat × α) => p.1 == i) ∘ (fun v => (j, v)) = fun _ => false := by
+    funext v; simp [h]
+  rw [h1]
+  simp
+
+@[simp] theorem project_nil (i : Nat) : project i (Strm.nil : Strm (Nat × α)) = [] := rfl
+
+theorem rest_cons_ok (B : Active σ α) (buf : List α) (bufs : List (List α)) (st' : ChainState σ B.chain.pre)
+    (h : feedList (chainSink B.chain.acc B.chain.pre) B.st buf = .ok st') :
+    B.rest (buf :: bufs) = Active.rest { B with st := st' } bufs := by
+  simp only [Active.rest, List.flatten_cons, feedList_append, h]
+
+theorem rest_cons_stop (B : Active σ α) (buf : List α) (bufs : List (List α)) (st' : ChainState σ B.chain.pre)
+    (h : feedList (chainSink B.chain.acc B.chain.pre) B.st buf = .stop st') :
+    B.rest (buf :: bufs) = computeAfter B.chain (chainAcc B.chain.pre st') := by
+  simp only [Active.rest, List.flatten_cons, feedList_append, h, finish]
+
+theorem rest_cons_err (B : Active σ α) (buf : List α) (bufs : List (List α)) (e : Exc)
+    (h : feedList (chainSink B.chain.acc B.chain.pre) B.st buf = .err e) :
+    B.rest (buf :: bufs) = .fail e := by
+  simp only [Active.rest, List.flatten_cons, feedList_append, h, finish]
+
+/-- one buffer: if no active branch is going to raise, nothing raises here, the branches that stay active are
+not going to raise, and the output restricted to branch `i` does not depend on the other branches -/
+theorem processBuf_filter (i : Nat) (buf : List α) (bufs : List (List α)) :
+    ∀ (act : List (Active σ α)), (∀ B ∈ act, (B.rest (buf :: bufs)).term = none) →
+      (processBuf buf act).2.term = none ∧
+      (∀ B' ∈ (processBuf buf act).1, (B'.rest bufs).term = none) ∧
+      (processBuf buf (act.filter (fun B => B.idx == i))).1 = (processBuf buf act).1.filter (fun B => B.idx == i) ∧
+      project i (processBuf buf (act.filter (fun B => B.idx == i))).2 = project i (processBuf buf act).2
+  | [], _ => by simp [processBuf, Strm.nil]
+  | B :: rest, h => by
+    have hB := h B (List.mem_cons_self ..)
+    obtain ⟨ih1, ih2, ih3, ih4⟩ := processBuf_filter i buf bufs rest
+      (fun B' hB' => h B' (List.mem_cons_of_mem _ hB'))
+    cases hf : feedList (chainSink B.chain.acc B.chain.pre) B.st buf with
+    | err e =>
+      rw [rest_cons_err B buf bufs e hf] at hB
+      simp [Strm.fail] at hB
+    | ok st' =>
+      rw [rest_cons_ok B buf bufs st' hf] at hB
+      by_cases hp : (B.idx == i) = true
+      · simp only [List.filter_cons, hp, if_true, processBuf, hf]
+        refine ⟨ih1, ?_, ?_, ih4⟩
+        · intro B' hB'
+          rcases List.mem_cons.mp hB' with rfl | hB'
+          · exact hB
+          · exact ih2 B' hB'
+        · rw [ih3]
+      · have hp' : (B.idx == i) = false := by simpa using hp
+        simp only [List.filter_cons, hp', Bool.false_eq_true, if_false, processBuf, hf]
+        refine ⟨ih1, ?_, ih3, ih4⟩
+        intro B' hB'
+        rcases List.mem_cons.mp hB' with rfl | hB'
+        · exact hB
+        · exact ih2 B' hB'
+    | stop st' =>
+      rw [rest_cons_stop B buf bufs st' hf] at hB
+      have htag : (tag B.idx (computeAfter B.chain (chainAcc B.chain.pre st'))).term = none := hB
+      by_cases hp : (B.idx == i) = true
+      · simp only [List.filter_cons, hp, if_true, processBuf, hf]
+        refine ⟨?_, ih2, ih3, ?_⟩
+        · rw [andThen_term _ _ htag]; exact ih1
+        · rw [project_andThen _ _ _ htag, project_andThen _ _ _ htag, ih4]
+      · have hp' : (B.idx == i) = false := by simpa using hp
+        simp only [List.filter_cons, hp', Bool.false_eq_true, if_false, processBuf, hf]
+        refine ⟨?_, ih2, ih3, ?_⟩
+        · rw [andThen_term _ _ htag]; exact ih1
+        · rw [project_andThen _ _ _ htag, project_tag_ne i B.idx hp', List.nil_append]
+          exact ih4
+
+theorem finalCompute_filter (i : Nat) : ∀ (act : List (Active σ α)),
+    (∀ B ∈ act, (B.rest []).term = none) →
+      (finalCompute act).term = none ∧
+      project i (finalCompute (act.filter (fun B => B.idx == i))) = project i (finalCompute act)
+  | [], _ => by simp [finalCompute, Strm.nil]
+  | B :: rest, h => by
+    have hB := h B (List.mem_cons_self ..)
+    obtain ⟨ih1, ih2⟩ := finalCompute_filter i rest (fun B' hB' => h B' (List.mem_cons_of_mem _ hB'))
+    simp only [Active.rest, List.flatten_nil, feedList, finish] at hB
+    have htag : (tag B.idx (computeAfter B.chain (chainAcc B.chain.pre B.st))).term = none := hB
+    by_cases hp : (B.idx == i) = true
+    · simp only [List.filter_cons, hp, if_true, finalCompute]
+      refine ⟨?_, ?_⟩
+      · rw [andThen_term _ _ htag]; exact ih1
+      · rw [project_andThen _ _ _ htag, project_andThen _ _ _ htag, ih2]
+    · have hp' : (B.idx == i) = false := by simpa using hp
+      simp only [List.filter_cons, hp', Bool.false_eq_true, if_false, finalCompute]
+      refine ⟨?_, ?_⟩
+      · rw [andThen_term _ _ htag]; exact ih1
+      · rw [project_andThen _ _ _ htag, project_tag_ne i B.idx hp', List.nil_append]
+        exact ih2
+
+/-- the whole loop: the output restricted to branch `i` is what the loop yields with the branches tagged `i`
+alone -/
+theorem splitLoop_filter (i : Nat) : ∀ (bufs : List (List α)) (act : List (Active σ α)),
+    (∀ B ∈ act, (B.rest bufs).term = none) →
+      (splitLoop bufs act).term = none ∧
+      project i (splitLoop bufs (act.filter (fun B => B.idx == i))) = project i (splitLoop bufs act)
+  | [], act, h => by
+    simp only [splitLoop]
+    exact finalCompute_filter i act h
+  | buf :: bufs, act, h => by
+    obtain ⟨h1, h2, h3, h4⟩ := processBuf_filter i buf bufs act h
+    obtain ⟨ih1, ih2⟩ := splitLoop_filter i bufs (processBuf buf act).1 h2
+    have hsub : ∀ B ∈ act.filter (fun B => B.idx == i), (B.rest (buf :: bufs)).term = none :=
+      fun B hB => h B (List.mem_filter.mp hB).1
+    obtain ⟨g1, _, _, _⟩ := processBuf_filter i buf bufs (act.filter (fun B => B.idx == i)) hsub
+    simp only [splitLoop]
+    refine ⟨?_, ?_⟩
+    · rw [andThen_term _ _ h1]; exact ih1
+    · rw [project_andThen _ _ _ h1, project_andThen _ _ _ g1, h3, h4, ih2]
+
+theorem initActive_idx_ge : ∀ (cs : List (Chain σ α)) (k : Nat), ∀ B ∈ initActive k cs, k ≤ B.idx
+  | [], _, B, h => by simp [initActive] at h
+  | c :: cs, k, B, h => by
+    simp only [initActive, List.mem_cons] at h
+    rcases h with rfl | h
+    · exact Nat.le_refl _
+    · exact Nat.le_of_succ_le (initActive_idx_ge cs (k + 1) B h)
+
+theorem initActive_filter : ∀ (cs : List (Chain σ α)) (k i : Nat) (hi : i < cs.length),
+    (initActive k cs).filter (fun B => B.idx == k + i)
+      = [{ chain := cs[i], st := chainInit cs[i].acc.init cs[i].pre, idx := k + i }]
+  | [], _, _, hi => by simp at hi
+  | c :: cs, k, 0, _ => by
+    have hnone : (initActive (k + 1) cs).filter (fun B => B.idx == k + 0) = [] := by
+      apply List.filter_eq_nil_iff.mpr
+      intro B hB
+      have := initActive_idx_ge cs (k + 1) B hB
+      simp only [Nat.add_zero, beq_iff_eq]
+      omega
+    simp only [initActive, List.filter_cons, Nat.add_zero, beq_self_eq_true, if_true, List.getElem_cons_zero]
+    simp only [Nat.add_zero] at hnone
+    rw [hnone]
+  | c :: cs, k, i + 1, hi => by
+    have hi' : i < cs.length := by simpa using hi
+    have ih := initActive_filter cs (k + 1) i hi'
+    have hk : k + 1 + i = k + (i + 1) := by omega
+    rw [hk] at ih
+    have hne : (k == k + (i + 1)) = false := by simp
+    simp only [initActive, List.filter_cons, hne, Bool.false_eq_true, if_false, List.getElem_cons_succ]
+    exact ih
+
+theorem initActive_rest (bufs : List (List α)) : ∀ (cs : List (Chain σ α)) (k : Nat), ∀ B ∈ initActive k cs,
+    ∃ c ∈ cs, B.rest bufs
+      = finish c (feedList (chainSink c.acc c.pre) (chainInit c.acc.init c.pre) bufs.flatten)
+  | [], _, B, h => by simp [initActive] at h
+  | c :: cs, k, B, h => by
+    simp only [initActive, List.mem_cons] at h
+    rcases h with rfl | h
+    · exact ⟨c, List.mem_cons_self .., rfl⟩
+    · obtain ⟨c', hc', h1⟩ := initActive_rest bufs cs (k + 1) B h
+      exact ⟨c', List.mem_cons_of_mem _ hc', h1⟩
+
 end Lena.C05
